@@ -585,6 +585,16 @@ def run(tier: str, budget: Budget, rnd, arg) -> StreamResult:
                 res.violation("ranking of coalition sets is not a bijection ordered by set size",
                               {"n": n, "limit": L, "ids": ids[:64]}, key="regret:ranking")
             res.evaluations += 1
+    # ---- outside the property's domain (n < 3), compared only: numpy rejects the negative shape for n < 2;
+    #      n = 2 has no viable coalition and an empty strategy
+    for n in (1, 2):
+        for L in (1, 2):
+            rm, ans, tlen, stored = construct(n, L, False)
+            script.add(f"rgt new d{n}_{L} {n} {L} 0{pol(tlen, stored)}", ans, {"out_of_domain": (n, L)})
+            res.count(f"out-of-domain:n{n}:{ans}")
+            if rm is not None:
+                kind, a = vec_answer(lambda: rm.regret_matching_strategy(0))
+                script.add(f"rgt strategy d{n}_{L} 0", rlist(a) if kind == "num" else kind, {"out_of_domain": (n, L)})
     # ---- objects
     tmp = Path(tempfile.mkdtemp(prefix="verif_rgt_", dir="/tmp"))
     nums_cases = 0
